@@ -314,12 +314,35 @@ def e2e_oracle(case) -> core.CaseResult:
             # a little with the in-place idiom state["X"] += ...
             conf["ibm"] = {"module": str(sim.PLUG / "ibm_script.py"), "ask_lonlat": True, "wander": [0.05, -0.03]}
             res.cls("ibm_asks_lonlat_and_moves_in_place")
+        numrec = (0, 0, 1, 2, 3)[case["seed"] % 5]   # split output: lon/lat must land in the record of their X, Y
+        dense = case["seed"] % 7 == 0
+        if numrec:
+            conf["output"]["numrec"] = numrec
+            res.cls(f"numrec{numrec}")
+        if dense:
+            conf["output"]["layout"] = "dense"
+            res.cls("dense")
         e2e.write_yaml(conf, d / "ladim.yaml")
         r = e2e.run_main(d / "ladim.yaml")
         if not res.check(r["status"] == "ok", "lonlat_run_fails",
                          f"{r['exc']}\n{(r['tb'] or '')[-500:]}"):
             return res
-        f = e2e.read_sparse(d / "out.nc")
+        recs = []
+        try:
+            for name in e2e.list_outputs(d):
+                if dense:
+                    g = e2e.read_dense(d / name)
+                    for n in range(len(g["times"])):
+                        m = ~np.ma.getmaskarray(np.ma.asarray(g["inst"]["X"][n]))
+                        recs.append({v: np.asarray(np.ma.asarray(g["inst"][v][n])[m]) for v in ("X", "Y", "lon", "lat")})
+                else:
+                    recs += e2e.read_sparse(d / name)["records"]
+        except Exception as e:  # noqa: BLE001
+            res.fail("lonlat_output_unreadable", repr(e))
+            return res
+        f = {"records": recs}
+    if not res.check(len(recs) == 3, "lonlat_record_count", f"{len(recs)} records in the output, 3 scheduled"):
+        return res
     rec0 = f["records"][0]
     if not res.check(len(rec0["X"]) == len(X), "lonlat_release_count", f"{len(rec0['X'])} particles"):
         return res
@@ -328,7 +351,8 @@ def e2e_oracle(case) -> core.CaseResult:
               f"released at X={rec0['X'][:3]}, Y={rec0['Y'][:3]}: interpolated lon/lat miss the release file's by {H.max():.3g} deg^2")
     for n, rec in enumerate(f["records"]):
         wl, wa = ref_bilin(lon, rec["X"], rec["Y"]), ref_bilin(lat, rec["X"], rec["Y"])
-        res.check(np.allclose(rec["lon"], wl, rtol=0, atol=1e-9) and np.allclose(rec["lat"], wa, rtol=0, atol=1e-9),
+        res.check(len(rec["lon"]) == len(rec["X"]) and np.allclose(rec["lon"], wl, rtol=0, atol=1e-9)
+                  and np.allclose(rec["lat"], wa, rtol=0, atol=1e-9),
                   "output_lonlat", f"record {n}: lon/lat differ from bilinear interpolation at the record's X, Y")
     res.nontrivial = len(f["records"]) >= 2
     res.cls("subgrid" if case["sub"] else "fullgrid")
